@@ -148,9 +148,8 @@ class Evaluator(object):
             self.w.create(s['key_letter'])
         elif t == 'DeleteNode':
             inst = self.live(self.lookup(s['variable_name']) if s['variable_name'].lower() != 'self' else self.self_inst)
-            for i in range(len(self.sh.links)):
-                if any(p is inst or q is inst for p, q in self.sh.links[i]):
-                    raise Discard('delete of an instance that still participates in links')
+            # the instance leaves every link it takes part in (what xtuml.delete documents; BridgePoint's own tools call a
+            # program that deletes a related instance erroneous - the generator does it in one deliberate template only)
             self.sh.delete(inst)
         elif t in ('RelateNode', 'UnrelateNode'):
             a = self.live(self._inst(s['from_variable_name']))
